@@ -354,6 +354,13 @@ func (x *client) getReplyRules() {
 					okRe = false
 					detail = fmt.Sprintf("the loop is re-entered when %v; want %s ∧ %s", implied, want1, want2)
 				}
+				// ... and exactly then: no further conjunct may narrow which sequence-0 messages are skipped
+				for _, l := range implied {
+					if l != want1 && l != want2 && !strings.HasPrefix(l, "φ") {
+						okRe = false
+						detail = fmt.Sprintf("skipping an unsolicited (sequence 0) message also requires %s: other sequence-0 events arriving between request and reply are taken for the reply", l)
+					}
+				}
 			}
 		}
 	}
